@@ -110,6 +110,16 @@ func StatusName(st solver.Status) string {
 // through the public constructors. Each call returns fresh slices.
 func CardConstrsOf(l ref.Lin) []solver.CardConstr {
 	lits := append([]int{}, l.Lits...)
+	if l.Rhs == 1 && len(lits) > 0 { // the dedicated constructors
+		switch l.Rel {
+		case ref.GE:
+			return []solver.CardConstr{solver.AtLeast1(lits...)}
+		case ref.LE:
+			return []solver.CardConstr{solver.AtMost1(lits...)}
+		default:
+			return solver.Exactly1(lits...)
+		}
+	}
 	switch l.Rel {
 	case ref.GE:
 		return []solver.CardConstr{{Lits: lits, AtLeast: l.Rhs}}
@@ -134,6 +144,9 @@ func PBConstrsOf(l ref.Lin) []solver.PBConstr {
 	if l.Coefs == nil {
 		switch l.Rel {
 		case ref.GE:
+			if l.Rhs == 1 {
+				return []solver.PBConstr{solver.PropClause(lits...)}
+			}
 			return []solver.PBConstr{solver.AtLeast(lits, l.Rhs)}
 		case ref.LE:
 			return []solver.PBConstr{solver.AtMost(lits, l.Rhs)}
